@@ -40,7 +40,12 @@ def row_to_index(row):
 
 def net_from_case(d):
     """dict of nested lists -> dict of float64 tensors (leaf tensors, no grad)."""
-    return {k: torch.tensor(v, dtype=F64) for k, v in d.items()}
+    out = {k: torch.tensor(v, dtype=F64) for k, v in d.items()}
+    n = out["b"].shape[0]
+    for k in ("W", "U"):           # an empty layer (size 0) is a (0, n) matrix, which a nested list cannot express
+        if k in out and out[k].numel() == 0:
+            out[k] = out[k].reshape(0, n)
+    return out
 
 
 def with_grad(net):
